@@ -1,0 +1,11 @@
+//go:build !verif
+
+package proxy
+
+import "time"
+
+// verifAt is a no-op unless the package is built with the `verif` build tag (see verif_on.go).
+func verifAt(string, ...interface{}) {}
+
+// verifRefreshWindow returns 0 (use the default refresh window) unless built with the `verif` build tag.
+func verifRefreshWindow() time.Duration { return 0 }
